@@ -33,18 +33,18 @@ let q_of_float (f : float) : q =
 let float_of_bits_hex (s : string) : float = Int64.float_of_bits (Int64.of_string ("0x" ^ s))
 
 (* ---- Z dump parser ---- *)
-let parse_zdump_tokens (toks : string list) : z geomT * string list =
+let parse_dump_gen (ordf : string -> 'a) (zero : 'a) (toks : string list) : 'a geomT * string list =
   let cur = ref toks in
   let next () = match !cur with
     | [] -> raise (Parse_error "unexpected end of dump")
     | t :: r -> cur := r; t in
   let next_int () = try int_of_string (next ()) with Failure _ -> raise (Parse_error "not an integer") in
-  let ord () = z_of_int (next_int ()) in
+  let ord () = ordf (next ()) in
   let vtx ct =
     let x = ord () in
     let y = ord () in
-    let z = if ct_has_z ct then ord () else Z0 in
-    let m = if ct_has_m ct then ord () else Z0 in
+    let z = if ct_has_z ct then ord () else zero in
+    let m = if ct_has_m ct then ord () else zero in
     { vx = x; vy = y; vz = z; vm = m } in
   let point_body () =
     let ct = ct_of_int (next_int ()) in
@@ -75,6 +75,17 @@ let parse_zdump_tokens (toks : string list) : z geomT * string list =
     | t -> raise (Parse_error ("unknown tag " ^ t)) in
   let g = geom () in
   (g, !cur)
+
+
+let parse_zdump_tokens (toks : string list) : z geomT * string list =
+  parse_dump_gen (fun t -> try z_of_int (int_of_string t) with Failure _ -> raise (Parse_error "not an integer")) Z0 toks
+
+(* float dump (harness lib.Dump: 16 hex digits per ordinate) read as exact rationals *)
+let parse_fdump (s : string) : q geomT =
+  let q0 = { qnum = Z0; qden = XH } in
+  let g, rest = parse_dump_gen (fun t -> q_of_float (float_of_bits_hex t)) q0 (tokens s) in
+  if rest <> [] then raise (Parse_error "trailing tokens in dump");
+  g
 
 let parse_zdump (s : string) : z geomT =
   let g, rest = parse_zdump_tokens (tokens s) in
@@ -109,3 +120,40 @@ let zdump (g : z geomT) : string =
     | GColl (ct, gs) -> hdr "GC" ct (List.length gs); List.iter geom gs in
   geom g;
   String.trim (Buffer.contents b)
+
+(* ---- dyadic rationals -> integers: all ordinates of a float64 case are multiplied by the same
+   power of two 2^k, the smallest that makes every one of them an integer. Orientation tests and
+   incidences are invariant, squared distances scale by 2^(2k). Purely for speed (integer
+   arithmetic instead of fractions in the extracted model). ---- *)
+let rec pow2_log = function XH -> 0 | XO p -> 1 + pow2_log p | XI _ -> failwith "denominator is not a power of two"
+
+let map_vtx f v = { vx = f v.vx; vy = f v.vy; vz = f v.vz; vm = f v.vm }
+let map_point f (MkPoint (ct, c)) = MkPoint (ct, (match c with None -> None | Some v -> Some (map_vtx f v)))
+let map_line f (MkLine (ct, vs)) = MkLine (ct, List.map (map_vtx f) vs)
+let map_poly f (MkPoly (ct, rs)) = MkPoly (ct, List.map (map_line f) rs)
+let rec map_geom f = function
+  | GPoint p -> GPoint (map_point f p)
+  | GLine l -> GLine (map_line f l)
+  | GPoly y -> GPoly (map_poly f y)
+  | GMPoint (ct, ps) -> GMPoint (ct, List.map (map_point f) ps)
+  | GMLine (ct, ls) -> GMLine (ct, List.map (map_line f) ls)
+  | GMPoly (ct, ys) -> GMPoly (ct, List.map (map_poly f) ys)
+  | GColl (ct, gs) -> GColl (ct, List.map (map_geom f) gs)
+
+let iter_ords (f : q -> unit) (g : q geomT) : unit =
+  ignore (map_geom (fun x -> f x; x) g)
+
+(* returns k and the scaled geometries *)
+let scale_to_integers (gs : q geomT list) : int * q geomT list =
+  let k = ref 0 in
+  List.iter (iter_ords (fun x -> k := max !k (pow2_log x.qden))) gs;
+  let k = !k in
+  let shift x =
+    let j = pow2_log x.qden in
+    let sh = k - j in
+    let num = match x.qnum with
+      | Z0 -> Z0 | Zpos p -> Zpos (shift_pos p sh) | Zneg p -> Zneg (shift_pos p sh) in
+    { qnum = num; qden = XH } in
+  (k, List.map (map_geom shift) gs)
+
+let q_pow2 (k : int) : q = { qnum = Zpos (pow2_pos k); qden = XH }
